@@ -35,7 +35,10 @@ UNRELATED = ["other.txt", "docs/x.txt", "NOTES"]
 # settings people keep in ~/.gitconfig that change what `git status` / `git branch` print
 USER_CONFIGS = [None, None, None, "[status]\n\tshowUntrackedFiles = no\n", "[status]\n\tshowUntrackedFiles = all\n",
                 "[color]\n\tui = always\n\tstatus = always\n\tbranch = always\n", "[core]\n\tquotePath = true\n",
-                "[status]\n\tshort = true\n\tbranch = true\n"]
+                "[status]\n\tshort = true\n\tbranch = true\n",
+                # an ignore file git cannot get at (a symlink loop; under sudo or in containers: permission denied): every git
+                # command then prints a warning on stderr - and works
+                "[core]\n\texcludesFile = @LOOP@/ignore\n"]
 
 
 def cases_matrix():
@@ -149,7 +152,12 @@ class Dirty:
         for m in many:
             files[m] = b"unrelated work\n"
         invoker.write_tree(d, files)
-        rg = realgit.RealGit(d, TODAY, remote=False, user_config=case.get("user_config"))
+        user_config = case.get("user_config")
+        if user_config and "@LOOP@" in user_config:
+            loop = d + ".loop"
+            os.symlink(loop, loop)
+            user_config = user_config.replace("@LOOP@", loop)
+        rg = realgit.RealGit(d, TODAY, remote=False, user_config=user_config)
         rg.init()
         if case.get("user_config"):
             ctx.probe("user_gitconfig_" + case["user_config"].split("]")[0].strip("[") + "_" +
